@@ -8,8 +8,10 @@ CONSTANTS
   ServerRun = TRUE
   CasLoserErrors = TRUE
   ExitCheckAfterHandler = TRUE
+  HooksConcurrent = TRUE
   CountAtAccept = TRUE
-  BeyondWait = 150
+  BeyondWait = 200
+  SlowWait = 300
   PairMod = 1
   NTriple = 70
   HookMod = 1
